@@ -259,7 +259,12 @@ func stdioRun(id int, rng *rand.Rand, maxlen int, dir string, given []T) O {
 		case given != nil:
 			a = given[i]
 		case x < 12:
-			a = T{"s", 1 + rng.Intn(len(ins))}
+			// (the blinker is not started in this mode: a timer that re-creates itself never lets a "w" action end)
+			k := 1 + rng.Intn(len(ins))
+			for ins[k-1].m["tick"] != nil {
+				k = 1 + rng.Intn(len(ins))
+			}
+			a = T{"s", k}
 		case x < 15:
 			a = T{"p", 10 + rng.Intn(50)}
 		case x < 18:
